@@ -398,6 +398,8 @@ func scenarioTruncate(seed int64, idx int) ScenarioOut {
 		}
 		n.stats[fmt.Sprintf("trunc.round%d_completed", round+1)]++
 	}
+	n.prev = n.ab.VerifSnapshot()
+	s.monQuiescent() // C02 over checkpointed + live confirmed vertices, each counted once
 	o := s.out("truncate", true)
 	o.Traces[0], o.Human[0] = roundTraces[0], roundOps[0]
 	for i, t := range roundTraces[1:] {
